@@ -12,6 +12,7 @@ Driver for C02 (model at `Float`).  Requests (floats as 16 hex digits, integers 
   `pmf   <dist> <params> n k1 … kn`   -> `= y1 … yn`      (discrete distributions, `k : i64`)
   `mean  <dist> <params>` | `var <dist> <params>` -> `= y`
   `mvn_pdf k mean[k] cov[k*k] m xs[m*k]` | `mvn_lnpdf …`  -> `= y1 … ym`
+  `mvn_mean k mean[k] cov[k*k]` -> `= k m1 … mk`;  `mvn_var k mean[k] cov[k*k]` -> `= nrows ncols c11 … ckk`
 `<dist> <params>`: `normal μ σ`, `gamma α β`, `beta α β`, `chi2 dof(nat)`, `t ν`, `pareto α xm`, `gumbel μ β`,
 `exponential λ`, `uniform lo hi`, `poisson λ`, `binomial n(nat) p`, `bernoulli p`, `duniform lo(int) hi(int)`.
 A constructor that panics gives `! panic`.
@@ -154,6 +155,22 @@ def c02Step (args : List String) : String :=
     withArgs pObj rest fun o => match o with | none => panicked | some o => ok o.mean
   | "var" :: rest =>
     withArgs pObj rest fun o => match o with | none => panicked | some o => ok o.var
+  | "mvn_mean" :: rest | "mvn_var" :: rest =>
+    withArgs (do
+      let k ← pNat
+      let mean ← pMany pFloat k
+      let cov ← pMany pFloat (k * k)
+      pure (k, mean, cov)) rest fun (k, mean, cov) =>
+      match LA.M.new cov k k with
+      | none => panicked
+      | some c =>
+        match MVN.new mean c with
+        | none => panicked
+        | some d =>
+          if args.head? == some "mvn_mean" then ok (showVec (MVN.meanOf d))
+          else
+            let v := MVN.varOf d
+            ok (toString v.nrows ++ " " ++ toString v.ncols ++ " " ++ showFloats v.data)
   | op :: rest =>
     if op == "mvn_pdf" || op == "mvn_lnpdf" then
       withArgs (do
